@@ -7,7 +7,7 @@
 (* builds them with the real ProofExp constructors and runs them under     *)
 (* every interpreter stack; Trace_ProofExp judges what comes back.         *)
 (***************************************************************************)
-EXTENDS ProofExp, Json, TLCExt, SequencesExt
+EXTENDS ProofExpRun, Json, TLCExt, SequencesExt
 CONSTANTS BlockSize
 VARIABLE blk
 
@@ -35,8 +35,12 @@ L3 == {RDyn(a, d) : a \in L2ok, d \in SmallDeltas} \cup {RInst(a, d) : a \in L2o
         \cup {r \in {RMp(a, b) : a \in L2ok, b \in L0 \cup L2ok} : Conc(r).ok}
 SpecCases == SetToSeq(L1 \cup L2all \cup L3)
 CheckSpec(i) ==
-  LET r == SpecCases[i]  c == Conc(r) IN
+  LET r == SpecCases[i]  c == Conc(r)  cc == CompileClause(r) IN
   \* every statically valid expression and a sample of the statically invalid modus ponens
-  IF c.ok \/ i % 2 = 0 THEN (IF PrintT("PEXP " \o ToJson([r |-> r, ok |-> c.ok, run |-> c.run, und |-> c.und, c |-> c.c])) THEN "" ELSE "") ELSE ""
+  IF cc # "" THEN cc
+  ELSE IF c.ok \/ i % 2 = 0
+       THEN (IF PrintT("PEXP " \o ToJson([r |-> r, ok |-> c.ok, run |-> c.run, und |-> c.und, c |-> c.c,
+                                           calls |-> IF c.ok THEN Methods(ExprCalls(r)) ELSE <<>>])) THEN "" ELSE "")
+       ELSE ""
 INSTANCE TraceBlocks WITH NCases <- Len(SpecCases), Check <- CheckSpec
 =============================================================================
